@@ -3,13 +3,17 @@
 //! C18, C02.execute_frame).
 //!
 //! Ghost file system (assumption A2): four directory entries, selected by the first byte of the last path
-//! component; the value of an entry says which bytes / which inode it holds.
+//! component; the value of an entry says which bytes / which inode it holds. The same ghost operations back two
+//! sets of stubs: (1) stubs of the std::fs functions, (2) stubs of the thin wrappers FsCommand::{remove, unsafe_rename,
+//! hardlink, symlink, unsafe_copy, mkdirs, check_can_rename}, which are those wrappers' CONTRACTS. The `wrapper_*`
+//! units prove that each real wrapper body, run over (1), refines (2); the `execute` units then use (2) for the
+//! wrappers and (1) for any direct std::fs call (quick tier), or (1) only (thorough tier: real wrappers inlined).
 #![allow(static_mut_refs)]
 use super::*;
 use crate::file::verif_file::{fake_metadata, LEN_TABLE};
+use crate::log::{LogLevel, ProgressBarLength};
 use crate::path::verif_path::{p1, p2, tag};
 use crate::progress::{NoProgressBar, ProgressTracker};
-use crate::log::{LogLevel, ProgressBarLength};
 
 // entries
 pub(crate) const T: usize = 0; // retained file (link target)
@@ -34,17 +38,43 @@ pub(crate) static mut LOCK_CALLS: u32 = 0;
 pub(crate) static mut LOCK_REFUSED: bool = false;
 pub(crate) static mut DIRS_MADE: bool = false;
 pub(crate) static mut FRAME_OK: bool = true; // no entry other than L, X, M (and M's parents) was written
-pub(crate) static mut INV_KIND: u8 = 0; // which crash-point invariant the stubs assert
+pub(crate) static mut INV_KIND: u8 = 0; // which crash-point invariant the ghost operations assert
 pub(crate) static mut REMOVED_SRC_AFTER_COPY_OK: bool = true;
+pub(crate) static mut FOREIGN_TOUCHED: bool = false; // something that existed before the run was removed / overwritten
+pub(crate) static mut UNCONTRACTED_FS_CALL: bool = false; // a std::fs entry point outside the contracts was called
 pub(crate) static mut FAULTS: bool = true; // false: the C20 family runs fault-free (locking is independent of faults)
+// fault tape: the k-th fallible file-system step fails iff TAPE[k] (every position, every combination)
+pub(crate) const TAPE_LEN: usize = 12;
+pub(crate) static mut TAPE: [bool; TAPE_LEN] = [false; TAPE_LEN];
+pub(crate) static mut TAPE_POS: usize = 0;
 
 pub(crate) const INV_REPLACE: u8 = 1;
 pub(crate) const INV_REMOVE: u8 = 2;
 pub(crate) const INV_MOVE: u8 = 3;
 pub(crate) const INV_REFLINK: u8 = 4;
+pub(crate) const INV_NONE: u8 = 5; // wrapper refinement units: no invariant, effects are compared instead
 
 pub(crate) fn slot(p: &Path) -> usize {
     match tag(p) {
+        b'T' => T,
+        b'L' => L,
+        b'X' => X,
+        _ => M,
+    }
+}
+
+pub(crate) fn std_slot(p: &std::path::Path) -> usize {
+    use std::os::unix::ffi::OsStrExt;
+    let b = p.as_os_str().as_bytes();
+    let mut start = 0;
+    let mut i = 0;
+    while i < b.len() {
+        if b[i] == b'/' {
+            start = i + 1;
+        }
+        i += 1;
+    }
+    match b[start] {
         b'T' => T,
         b'L' => L,
         b'X' => X,
@@ -57,6 +87,9 @@ pub(crate) fn slot(p: &Path) -> usize {
 /// sibling name, or has already been completely replaced by a link / clone / copy of identical bytes.
 pub(crate) fn crash_inv() -> bool {
     unsafe {
+        if INV_KIND == INV_NONE {
+            return true;
+        }
         let t_ok = FS[T] == ORIG_T;
         let l_ok = match INV_KIND {
             INV_REPLACE => FS[L] == ORIG_L || FS[X] == ORIG_L || FS[L] == ORIG_T || FS[L] == SYM_T,
@@ -66,7 +99,6 @@ pub(crate) fn crash_inv() -> bool {
             INV_MOVE => FS[L] == ORIG_L || FS[M] == ORIG_L || FS[M] == COPY_L,
             _ => false,
         };
-        // something that existed before the run under the move target is never altered (C18)
         t_ok && l_ok
     }
 }
@@ -85,32 +117,23 @@ pub(crate) fn io_err() -> io::Error {
     io::Error::from(ErrorKind::Other)
 }
 
-/// Nondeterministic failure of one file-system call (every position, every combination).
+/// Failure of the next fallible file-system step, read from the symbolic fault tape.
 pub(crate) fn fails() -> bool {
-    unsafe { FAULTS && kani::any() }
+    unsafe {
+        if !FAULTS {
+            return false;
+        }
+        let k = TAPE_POS;
+        TAPE_POS += 1;
+        assert!(k < TAPE_LEN, "harness.fault_tape_long_enough");
+        TAPE[k]
+    }
 }
 
 // ---------------------------------------------------------------------------------------------------------
-// assumed contracts of the file-system wrappers (A2): each call fails without effect or has its POSIX effect
+// ghost operations (A2): each call fails without effect or has its POSIX effect
 
-pub(crate) fn stub_unsafe_rename(source: &Path, target: &Path) -> io::Result<()> {
-    let (s, t) = (slot(source), slot(target));
-    if fails() || unsafe { FS[s] } == ABSENT {
-        return Err(io_err());
-    }
-    unsafe {
-        FS[t] = FS[s];
-        FS[s] = ABSENT;
-    }
-    mutated(t);
-    if s == T {
-        unsafe { FRAME_OK = false };
-    }
-    Ok(())
-}
-
-pub(crate) fn stub_remove(path: &Path) -> io::Result<()> {
-    let s = slot(path);
+fn gfs_remove(s: usize) -> io::Result<()> {
     if fails() || unsafe { FS[s] } == ABSENT {
         return Err(io_err());
     }
@@ -118,14 +141,34 @@ pub(crate) fn stub_remove(path: &Path) -> io::Result<()> {
         if s == L && FS[M] != COPY_L && INV_KIND == INV_MOVE {
             REMOVED_SRC_AFTER_COPY_OK = false;
         }
+        if FS[s] == FOREIGN {
+            FOREIGN_TOUCHED = true;
+        }
         FS[s] = ABSENT;
     }
     mutated(s);
     Ok(())
 }
 
-fn stub_hardlink(target: &Path, link: &Path) -> io::Result<()> {
-    let (t, l) = (slot(target), slot(link));
+fn gfs_rename(s: usize, t: usize) -> io::Result<()> {
+    if fails() || unsafe { FS[s] } == ABSENT {
+        return Err(io_err());
+    }
+    unsafe {
+        if FS[t] == FOREIGN || FS[s] == FOREIGN {
+            FOREIGN_TOUCHED = true;
+        }
+        FS[t] = FS[s];
+        FS[s] = ABSENT;
+        if s == T {
+            FRAME_OK = false;
+        }
+    }
+    mutated(t);
+    Ok(())
+}
+
+fn gfs_hard_link(t: usize, l: usize) -> io::Result<()> {
     if fails() || unsafe { FS[l] != ABSENT || FS[t] == ABSENT } {
         return Err(io_err());
     }
@@ -134,8 +177,7 @@ fn stub_hardlink(target: &Path, link: &Path) -> io::Result<()> {
     Ok(())
 }
 
-fn stub_symlink(target: &Path, link: &Path) -> io::Result<()> {
-    let (t, l) = (slot(target), slot(link));
+fn gfs_symlink(t: usize, l: usize) -> io::Result<()> {
     if fails() || unsafe { FS[l] != ABSENT } {
         return Err(io_err());
     }
@@ -144,14 +186,11 @@ fn stub_symlink(target: &Path, link: &Path) -> io::Result<()> {
     Ok(())
 }
 
-fn stub_check_can_rename(_source: &Path, target: &Path) -> io::Result<()> {
-    if unsafe { FS[slot(target)] } != ABSENT {
-        return Err(io::Error::from(ErrorKind::AlreadyExists));
-    }
-    Ok(())
+fn gfs_exists(s: usize) -> bool {
+    unsafe { FS[s] != ABSENT }
 }
 
-fn stub_mkdirs(_path: &Path) -> io::Result<()> {
+fn gfs_mkdirs() -> io::Result<()> {
     if fails() {
         return Err(io_err());
     }
@@ -160,12 +199,16 @@ fn stub_mkdirs(_path: &Path) -> io::Result<()> {
 }
 
 /// `fs::copy` truncates/creates the target, then writes: a failure may leave a partial target.
-fn stub_unsafe_copy(source: &Path, target: &Path) -> io::Result<()> {
-    let (s, t) = (slot(source), slot(target));
+fn gfs_copy(s: usize, t: usize) -> io::Result<()> {
     if fails() || unsafe { FS[s] } == ABSENT {
         return Err(io_err());
     }
-    unsafe { FS[t] = PARTIAL };
+    unsafe {
+        if FS[t] == FOREIGN {
+            FOREIGN_TOUCHED = true;
+        }
+        FS[t] = PARTIAL;
+    }
     mutated(t);
     if fails() {
         return Err(io_err());
@@ -175,11 +218,105 @@ fn stub_unsafe_copy(source: &Path, target: &Path) -> io::Result<()> {
     Ok(())
 }
 
+// (1) stubs of the std::fs functions
+
+pub(crate) fn std_remove_file<P: AsRef<std::path::Path>>(path: P) -> io::Result<()> {
+    gfs_remove(std_slot(path.as_ref()))
+}
+
+pub(crate) fn std_rename<P: AsRef<std::path::Path>, Q: AsRef<std::path::Path>>(from: P, to: Q) -> io::Result<()> {
+    gfs_rename(std_slot(from.as_ref()), std_slot(to.as_ref()))
+}
+
+pub(crate) fn std_hard_link<P: AsRef<std::path::Path>, Q: AsRef<std::path::Path>>(original: P, link: Q) -> io::Result<()> {
+    gfs_hard_link(std_slot(original.as_ref()), std_slot(link.as_ref()))
+}
+
+pub(crate) fn std_symlink<P: AsRef<std::path::Path>, Q: AsRef<std::path::Path>>(original: P, link: Q) -> io::Result<()> {
+    gfs_symlink(std_slot(original.as_ref()), std_slot(link.as_ref()))
+}
+
+pub(crate) fn std_exists(p: &std::path::Path) -> bool {
+    gfs_exists(std_slot(p))
+}
+
+pub(crate) fn std_create_dir_all<P: AsRef<std::path::Path>>(_path: P) -> io::Result<()> {
+    gfs_mkdirs()
+}
+
+pub(crate) fn std_copy<P: AsRef<std::path::Path>, Q: AsRef<std::path::Path>>(from: P, to: Q) -> io::Result<u64> {
+    gfs_copy(std_slot(from.as_ref()), std_slot(to.as_ref())).map(|_| 0)
+}
+
+/// Any other way of opening a file for writing / creating / removing is outside every contract of this family.
+pub(crate) fn std_file_create<P: AsRef<std::path::Path>>(_path: P) -> io::Result<std::fs::File> {
+    unsafe { UNCONTRACTED_FS_CALL = true };
+    Err(io_err())
+}
+
+pub(crate) fn std_file_open<P: AsRef<std::path::Path>>(_path: P) -> io::Result<std::fs::File> {
+    unsafe { UNCONTRACTED_FS_CALL = true };
+    Err(io_err())
+}
+
+pub(crate) fn std_open_options_open<P: AsRef<std::path::Path>>(_o: &std::fs::OpenOptions, _path: P) -> io::Result<std::fs::File> {
+    unsafe { UNCONTRACTED_FS_CALL = true };
+    Err(io_err())
+}
+
+pub(crate) fn std_fs_write<P: AsRef<std::path::Path>, C: AsRef<[u8]>>(_path: P, _c: C) -> io::Result<()> {
+    unsafe { UNCONTRACTED_FS_CALL = true };
+    Err(io_err())
+}
+
+pub(crate) fn std_remove_dir_all<P: AsRef<std::path::Path>>(_path: P) -> io::Result<()> {
+    unsafe { UNCONTRACTED_FS_CALL = true };
+    Err(io_err())
+}
+
+pub(crate) fn std_remove_dir<P: AsRef<std::path::Path>>(_path: P) -> io::Result<()> {
+    unsafe { UNCONTRACTED_FS_CALL = true };
+    Err(io_err())
+}
+
+// (2) contracts of the wrappers, as stubs
+
+pub(crate) fn stub_unsafe_rename(source: &Path, target: &Path) -> io::Result<()> {
+    gfs_rename(slot(source), slot(target))
+}
+
+pub(crate) fn stub_remove(path: &Path) -> io::Result<()> {
+    gfs_remove(slot(path))
+}
+
+pub(crate) fn stub_hardlink(target: &Path, link: &Path) -> io::Result<()> {
+    gfs_hard_link(slot(target), slot(link))
+}
+
+pub(crate) fn stub_symlink(target: &Path, link: &Path) -> io::Result<()> {
+    gfs_symlink(slot(target), slot(link))
+}
+
+pub(crate) fn stub_check_can_rename(_source: &Path, target: &Path) -> io::Result<()> {
+    if gfs_exists(slot(target)) {
+        return Err(io::Error::from(ErrorKind::AlreadyExists));
+    }
+    Ok(())
+}
+
+pub(crate) fn stub_mkdirs(_path: &Path) -> io::Result<()> {
+    gfs_mkdirs()
+}
+
+pub(crate) fn stub_unsafe_copy(source: &Path, target: &Path) -> io::Result<()> {
+    gfs_copy(slot(source), slot(target))
+}
+
 pub(crate) fn stub_temp_file(_path: &Path) -> Path {
     p1(b"X")
 }
 
-/// Assumed contract of `maybe_lock` (its own contract is unit C20.maybe_lock): `Err` iff locking was requested
+/// Assumed contract of `maybe_lock` (its own contract is unit c20_maybe_lock): `Err` iff locking was requested
 /// and the lock was refused; the `Some(lock)` result is abstracted to `None` (dropping it only unlocks).
 pub(crate) fn stub_maybe_lock(_path: &Path, lock: bool) -> io::Result<Option<FileLock>> {
     unsafe {
@@ -220,6 +357,16 @@ pub(crate) fn pm(name: &[u8], idx: u64) -> PathAndMetadata {
     PathAndMetadata { path: p1(name), metadata: fake_metadata(idx) }
 }
 
+fn symbolic_tape() -> [bool; TAPE_LEN] {
+    let mut t = [false; TAPE_LEN];
+    let mut i = 0;
+    while i < TAPE_LEN {
+        t[i] = kani::any();
+        i += 1;
+    }
+    t
+}
+
 /// Initial state: T and L exist with their own inodes, nothing else. Returns (should_lock, len of L).
 pub(crate) fn init(kind: u8, faults: bool, lock_may_be_refused: bool) -> (bool, u64) {
     let len: u64 = kani::any();
@@ -233,7 +380,11 @@ pub(crate) fn init(kind: u8, faults: bool, lock_may_be_refused: bool) -> (bool, 
         FRAME_OK = true;
         INV_KIND = kind;
         REMOVED_SRC_AFTER_COPY_OK = true;
+        FOREIGN_TOUCHED = false;
+        UNCONTRACTED_FS_CALL = false;
         FAULTS = faults;
+        TAPE = if faults { symbolic_tape() } else { [false; TAPE_LEN] };
+        TAPE_POS = 0;
         LEN_TABLE = [kani::any(), len, 0, 0];
     }
     (kani::any(), len)
@@ -245,6 +396,8 @@ pub(crate) fn common_post(ok: Option<u64>, len: u64) {
         // the retained file is never written, nothing outside {L, X, M} is
         assert!(FS[T] == ORIG_T, "C02.execute_frame.retained_untouched");
         assert!(FRAME_OK, "C02.execute_frame.only_L_X_M_written");
+        assert!(!FOREIGN_TOUCHED, "C02.execute_frame.files_outside_the_groups_untouched");
+        assert!(!UNCONTRACTED_FS_CALL, "C02.execute_frame.no_other_file_system_entry_point_used");
         assert!(crash_inv(), "C05.invariant_at_return");
         if let Some(n) = ok {
             assert!(n == len, "C05.reclaimed_equals_file_len");
@@ -281,20 +434,167 @@ pub(crate) fn outcome(r: io::Result<FileLen>) -> Option<u64> {
     o
 }
 
+/// Attaches the stub set of the ghost file system to a harness.
+///   wrappers: the thin FsCommand wrappers are replaced by their contracts (2) and std::fs by (1) (quick tier)
+///   std:      only std::fs is replaced (1): the real wrapper bodies run (thorough tier, and the wrapper units)
+macro_rules! ghost_fs_unit {
+    (wrappers, $name:ident, $body:block) => { ghost_fs_unit!(wrappers, $name, [], $body); };
+    (std, $name:ident, $body:block) => { ghost_fs_unit!(std, $name, [], $body); };
+    (wrappers, $name:ident, [$(($p:path, $st:path)),*], $body:block) => {
+        #[kani::proof]
+        $(#[kani::stub($p, $st)])*
+        #[kani::stub(alloc::fmt::format, stub_format)]
+        #[kani::stub(crate::path::Path::display, stub_display)]
+        #[kani::stub(std::fs::Metadata::len, crate::file::verif_file::stub_metadata_len)]
+        #[kani::stub(FsCommand::maybe_lock, stub_maybe_lock)]
+        #[kani::stub(FsCommand::temp_file, stub_temp_file)]
+        #[kani::stub(FsCommand::unsafe_rename, stub_unsafe_rename)]
+        #[kani::stub(FsCommand::remove, stub_remove)]
+        #[kani::stub(FsCommand::hardlink, stub_hardlink)]
+        #[kani::stub(FsCommand::symlink, stub_symlink)]
+        #[kani::stub(FsCommand::check_can_rename, stub_check_can_rename)]
+        #[kani::stub(FsCommand::mkdirs, stub_mkdirs)]
+        #[kani::stub(FsCommand::unsafe_copy, stub_unsafe_copy)]
+        #[kani::stub(std::fs::remove_file, std_remove_file)]
+        #[kani::stub(std::fs::rename, std_rename)]
+        #[kani::stub(std::fs::hard_link, std_hard_link)]
+        #[kani::stub(std::os::unix::fs::symlink, std_symlink)]
+        #[kani::stub(std::fs::copy, std_copy)]
+        #[kani::stub(std::fs::create_dir_all, std_create_dir_all)]
+        #[kani::stub(std::path::Path::exists, std_exists)]
+        #[kani::stub(std::fs::File::create, std_file_create)]
+        #[kani::stub(std::fs::File::open, std_file_open)]
+        #[kani::stub(std::fs::OpenOptions::open, std_open_options_open)]
+        #[kani::stub(std::fs::write, std_fs_write)]
+        #[kani::stub(std::fs::remove_dir_all, std_remove_dir_all)]
+        #[kani::stub(std::fs::remove_dir, std_remove_dir)]
+        #[kani::unwind(14)]
+        fn $name() $body
+    };
+    (std, $name:ident, [$(($p:path, $st:path)),*], $body:block) => {
+        #[kani::proof]
+        $(#[kani::stub($p, $st)])*
+        #[kani::stub(alloc::fmt::format, stub_format)]
+        #[kani::stub(crate::path::Path::display, stub_display)]
+        #[kani::stub(std::fs::Metadata::len, crate::file::verif_file::stub_metadata_len)]
+        #[kani::stub(FsCommand::maybe_lock, stub_maybe_lock)]
+        #[kani::stub(FsCommand::temp_file, stub_temp_file)]
+        #[kani::stub(std::fs::remove_file, std_remove_file)]
+        #[kani::stub(std::fs::rename, std_rename)]
+        #[kani::stub(std::fs::hard_link, std_hard_link)]
+        #[kani::stub(std::os::unix::fs::symlink, std_symlink)]
+        #[kani::stub(std::fs::copy, std_copy)]
+        #[kani::stub(std::fs::create_dir_all, std_create_dir_all)]
+        #[kani::stub(std::path::Path::exists, std_exists)]
+        #[kani::stub(std::fs::File::create, std_file_create)]
+        #[kani::stub(std::fs::File::open, std_file_open)]
+        #[kani::stub(std::fs::OpenOptions::open, std_open_options_open)]
+        #[kani::stub(std::fs::write, std_fs_write)]
+        #[kani::stub(std::fs::remove_dir_all, std_remove_dir_all)]
+        #[kani::stub(std::fs::remove_dir, std_remove_dir)]
+        #[kani::unwind(14)]
+        fn $name() $body
+    };
+}
+pub(crate) use ghost_fs_unit;
+
+// ---------------------------------------------------------------------------------------------------------
+// wrapper refinement units: real wrapper body over the std-level ghost FS == the wrapper's contract stub,
+// from every state of the four entries and for every fault tape
+
+fn arbitrary_state() -> [u8; 4] {
+    let s: [u8; 4] = [kani::any(), kani::any(), kani::any(), kani::any()];
+    kani::assume(s[0] <= FOREIGN && s[1] <= FOREIGN && s[2] <= FOREIGN && s[3] <= FOREIGN);
+    s
+}
+
+#[derive(PartialEq, Eq, Clone, Copy)]
+struct Snapshot {
+    fs: [u8; 4],
+    pos: usize,
+    dirs: bool,
+    foreign: bool,
+    frame: bool,
+    mutations: u32,
+    uncontracted: bool,
+}
+
+fn snapshot() -> Snapshot {
+    unsafe {
+        Snapshot { fs: FS, pos: TAPE_POS, dirs: DIRS_MADE, foreign: FOREIGN_TOUCHED, frame: FRAME_OK, mutations: MUTATIONS,
+                   uncontracted: UNCONTRACTED_FS_CALL }
+    }
+}
+
+fn reset(state: [u8; 4]) {
+    unsafe {
+        FS = state;
+        TAPE_POS = 0;
+        DIRS_MADE = false;
+        FOREIGN_TOUCHED = false;
+        FRAME_OK = true;
+        MUTATIONS = 0;
+        UNCONTRACTED_FS_CALL = false;
+        REMOVED_SRC_AFTER_COPY_OK = true;
+    }
+}
+
+fn refines<R1, R2>(real: impl FnOnce() -> io::Result<R1>, contract: impl FnOnce() -> io::Result<R2>) {
+    init(INV_NONE, true, false);
+    let state = arbitrary_state();
+    reset(state);
+    let r1 = real();
+    let ok1 = r1.is_ok();
+    std::mem::forget(r1);
+    let s1 = snapshot();
+    reset(state);
+    let r2 = contract();
+    let ok2 = r2.is_ok();
+    std::mem::forget(r2);
+    let s2 = snapshot();
+    assert!(ok1 == ok2, "C05.wrapper.fails_iff_the_system_call_fails");
+    assert!(s1 == s2, "C05.wrapper.effect_is_exactly_the_contracted_system_call");
+    kani::cover!(ok1, "cover.ok");
+    kani::cover!(!ok1, "cover.err");
+}
+
+// each wrapper is called with the concrete paths it is used with (distinct entries, so that swapped arguments show)
+ghost_fs_unit!(std, wrapper_remove, {
+    let p = p1(b"L");
+    refines(|| FsCommand::remove(&p), || stub_remove(&p));
+});
+ghost_fs_unit!(std, wrapper_unsafe_rename, {
+    let (a, b) = (p1(b"L"), p1(b"X"));
+    refines(|| FsCommand::unsafe_rename(&a, &b), || stub_unsafe_rename(&a, &b));
+});
+ghost_fs_unit!(std, wrapper_hardlink, {
+    let (a, b) = (p1(b"T"), p1(b"L"));
+    refines(|| FsCommand::hardlink(&a, &b), || stub_hardlink(&a, &b));
+});
+ghost_fs_unit!(std, wrapper_symlink, {
+    let (a, b) = (p1(b"T"), p1(b"L"));
+    refines(|| FsCommand::symlink(&a, &b), || stub_symlink(&a, &b));
+});
+ghost_fs_unit!(std, wrapper_unsafe_copy, {
+    let (a, b) = (p1(b"L"), p2(b"D", b"M"));
+    refines(|| FsCommand::unsafe_copy(&a, &b), || stub_unsafe_copy(&a, &b));
+});
+ghost_fs_unit!(std, wrapper_mkdirs, {
+    let a = p1(b"D");
+    refines(|| FsCommand::mkdirs(&a), || stub_mkdirs(&a));
+});
+ghost_fs_unit!(std, wrapper_check_can_rename, {
+    let (a, b) = (p1(b"L"), p2(b"D", b"M"));
+    refines(|| FsCommand::check_can_rename(&a, &b), || stub_check_can_rename(&a, &b));
+});
+
 // ---------------------------------------------------------------------------------------------------------
 // C05.safe_remove — the roll-back protocol itself
 
-#[kani::proof]
-#[kani::stub(alloc::fmt::format, stub_format)]
-#[kani::stub(crate::path::Path::display, stub_display)]
-#[kani::stub(FsCommand::temp_file, stub_temp_file)]
-#[kani::stub(FsCommand::unsafe_rename, stub_unsafe_rename)]
-#[kani::stub(FsCommand::remove, stub_remove)]
-#[kani::unwind(12)]
-fn c05_safe_remove() {
+fn safe_remove_body() {
     init(INV_REPLACE, true, false);
     let path = p1(b"L");
-    let r = FsCommand::safe_remove(&path, |p| stub_hardlink(&p1(b"T"), p), &NullLog);
+    let r = FsCommand::safe_remove(&path, |p| FsCommand::hardlink(&p1(b"T"), p), &NullLog);
     let ok = r.is_ok();
     std::mem::forget(r);
     unsafe {
@@ -309,11 +609,14 @@ fn c05_safe_remove() {
             assert!(FS[L] != ORIG_T, "C05.safe_remove.err_means_not_replaced");
         }
         assert!(FS[T] == ORIG_T && FRAME_OK, "C02.execute_frame.retained_untouched");
+        assert!(!UNCONTRACTED_FS_CALL, "C02.execute_frame.no_other_file_system_entry_point_used");
         kani::cover!(ok, "cover.ok");
         kani::cover!(!ok && FS[X] == ORIG_L, "cover.rollback_failed");
         kani::cover!(!ok && FS[L] == ORIG_L && MUTATIONS == 2, "cover.rolled_back");
     }
 }
+ghost_fs_unit!(wrappers, c05_safe_remove, { safe_remove_body() });
+ghost_fs_unit!(std, c05_safe_remove_std, { safe_remove_body() });
 
 // ---------------------------------------------------------------------------------------------------------
 // execute(Remove)
@@ -326,15 +629,7 @@ fn remove_harness(faults: bool, refusable: bool) -> (bool, Option<u64>, u64) {
     (should_lock, ok, len)
 }
 
-#[kani::proof]
-#[kani::stub(alloc::fmt::format, stub_format)]
-#[kani::stub(crate::path::Path::display, stub_display)]
-#[kani::stub(std::fs::Metadata::len, crate::file::verif_file::stub_metadata_len)]
-#[kani::stub(FsCommand::maybe_lock, stub_maybe_lock)]
-#[kani::stub(FsCommand::temp_file, stub_temp_file)]
-#[kani::stub(FsCommand::remove, stub_remove)]
-#[kani::unwind(12)]
-fn c05_execute_remove() {
+fn remove_body() {
     let (_, ok, len) = remove_harness(true, false);
     unsafe {
         assert!(ok.is_some() == (FS[L] == ABSENT), "C05.execute_remove.ok_iff_removed");
@@ -345,19 +640,12 @@ fn c05_execute_remove() {
     }
     common_post(ok, len);
 }
-
-#[kani::proof]
-#[kani::stub(alloc::fmt::format, stub_format)]
-#[kani::stub(crate::path::Path::display, stub_display)]
-#[kani::stub(std::fs::Metadata::len, crate::file::verif_file::stub_metadata_len)]
-#[kani::stub(FsCommand::maybe_lock, stub_maybe_lock)]
-#[kani::stub(FsCommand::temp_file, stub_temp_file)]
-#[kani::stub(FsCommand::remove, stub_remove)]
-#[kani::unwind(12)]
-fn c20_lock_first_remove() {
+ghost_fs_unit!(wrappers, c05_execute_remove, { remove_body() });
+ghost_fs_unit!(std, c05_execute_remove_std, { remove_body() });
+ghost_fs_unit!(wrappers, c20_lock_first_remove, {
     let (should_lock, ok, _) = remove_harness(false, true);
     lock_post(should_lock, ok);
-}
+});
 
 // ---------------------------------------------------------------------------------------------------------
 // execute(HardLink) / execute(SoftLink): replace L by a link to T through safe_remove
@@ -397,67 +685,28 @@ fn softlink_harness(faults: bool, refusable: bool) -> (bool, Option<u64>, u64) {
     (should_lock, ok, len)
 }
 
-#[kani::proof]
-#[kani::stub(alloc::fmt::format, stub_format)]
-#[kani::stub(crate::path::Path::display, stub_display)]
-#[kani::stub(std::fs::Metadata::len, crate::file::verif_file::stub_metadata_len)]
-#[kani::stub(FsCommand::maybe_lock, stub_maybe_lock)]
-#[kani::stub(FsCommand::temp_file, stub_temp_file)]
-#[kani::stub(FsCommand::unsafe_rename, stub_unsafe_rename)]
-#[kani::stub(FsCommand::remove, stub_remove)]
-#[kani::stub(FsCommand::hardlink, stub_hardlink)]
-#[kani::unwind(12)]
-fn c05_execute_hardlink() {
+fn hardlink_body() {
     let (_, ok, len) = hardlink_harness(true, false);
     replace_post(ok, ORIG_T);
     common_post(ok, len);
 }
-
-#[kani::proof]
-#[kani::stub(alloc::fmt::format, stub_format)]
-#[kani::stub(crate::path::Path::display, stub_display)]
-#[kani::stub(std::fs::Metadata::len, crate::file::verif_file::stub_metadata_len)]
-#[kani::stub(FsCommand::maybe_lock, stub_maybe_lock)]
-#[kani::stub(FsCommand::temp_file, stub_temp_file)]
-#[kani::stub(FsCommand::unsafe_rename, stub_unsafe_rename)]
-#[kani::stub(FsCommand::remove, stub_remove)]
-#[kani::stub(FsCommand::hardlink, stub_hardlink)]
-#[kani::unwind(12)]
-fn c20_lock_first_hardlink() {
-    let (should_lock, ok, _) = hardlink_harness(false, true);
-    lock_post(should_lock, ok);
-}
-
-#[kani::proof]
-#[kani::stub(alloc::fmt::format, stub_format)]
-#[kani::stub(crate::path::Path::display, stub_display)]
-#[kani::stub(std::fs::Metadata::len, crate::file::verif_file::stub_metadata_len)]
-#[kani::stub(FsCommand::maybe_lock, stub_maybe_lock)]
-#[kani::stub(FsCommand::temp_file, stub_temp_file)]
-#[kani::stub(FsCommand::unsafe_rename, stub_unsafe_rename)]
-#[kani::stub(FsCommand::remove, stub_remove)]
-#[kani::stub(FsCommand::symlink, stub_symlink)]
-#[kani::unwind(12)]
-fn c05_execute_softlink() {
+fn softlink_body() {
     let (_, ok, len) = softlink_harness(true, false);
     replace_post(ok, SYM_T);
     common_post(ok, len);
 }
-
-#[kani::proof]
-#[kani::stub(alloc::fmt::format, stub_format)]
-#[kani::stub(crate::path::Path::display, stub_display)]
-#[kani::stub(std::fs::Metadata::len, crate::file::verif_file::stub_metadata_len)]
-#[kani::stub(FsCommand::maybe_lock, stub_maybe_lock)]
-#[kani::stub(FsCommand::temp_file, stub_temp_file)]
-#[kani::stub(FsCommand::unsafe_rename, stub_unsafe_rename)]
-#[kani::stub(FsCommand::remove, stub_remove)]
-#[kani::stub(FsCommand::symlink, stub_symlink)]
-#[kani::unwind(12)]
-fn c20_lock_first_softlink() {
+ghost_fs_unit!(wrappers, c05_execute_hardlink, { hardlink_body() });
+ghost_fs_unit!(std, c05_execute_hardlink_std, { hardlink_body() });
+ghost_fs_unit!(wrappers, c05_execute_softlink, { softlink_body() });
+ghost_fs_unit!(std, c05_execute_softlink_std, { softlink_body() });
+ghost_fs_unit!(wrappers, c20_lock_first_hardlink, {
+    let (should_lock, ok, _) = hardlink_harness(false, true);
+    lock_post(should_lock, ok);
+});
+ghost_fs_unit!(wrappers, c20_lock_first_softlink, {
     let (should_lock, ok, _) = softlink_harness(false, true);
     lock_post(should_lock, ok);
-}
+});
 
 // ---------------------------------------------------------------------------------------------------------
 // execute(Move) — C18: never overwrites, source removed only after a complete copy; C05; C20
@@ -480,7 +729,7 @@ fn move_post(ok: Option<u64>, len: u64, preexisting: bool) {
         if preexisting {
             // C18: something already at the target → error, source and target untouched
             assert!(ok.is_none(), "C18.execute_move.existing_target_is_an_error");
-            assert!(FS[M] == FOREIGN, "C18.execute_move.existing_target_untouched");
+            assert!(FS[M] == FOREIGN && !FOREIGN_TOUCHED, "C18.execute_move.existing_target_untouched");
             assert!(FS[L] == ORIG_L, "C18.execute_move.source_left_in_place");
             assert!(MUTATIONS == 0, "C18.execute_move.nothing_written_when_target_exists");
         } else if ok.is_some() {
@@ -499,43 +748,23 @@ fn move_post(ok: Option<u64>, len: u64, preexisting: bool) {
 }
 
 macro_rules! move_unit {
-    ($name:ident, $rename:expr, $pre:expr) => {
-        #[kani::proof]
-        #[kani::stub(alloc::fmt::format, stub_format)]
-        #[kani::stub(crate::path::Path::display, stub_display)]
-        #[kani::stub(std::fs::Metadata::len, crate::file::verif_file::stub_metadata_len)]
-        #[kani::stub(FsCommand::maybe_lock, stub_maybe_lock)]
-        #[kani::stub(FsCommand::temp_file, stub_temp_file)]
-        #[kani::stub(FsCommand::check_can_rename, stub_check_can_rename)]
-        #[kani::stub(FsCommand::mkdirs, stub_mkdirs)]
-        #[kani::stub(FsCommand::unsafe_rename, stub_unsafe_rename)]
-        #[kani::stub(FsCommand::unsafe_copy, stub_unsafe_copy)]
-        #[kani::stub(FsCommand::remove, stub_remove)]
-        #[kani::unwind(12)]
-        fn $name() {
+    ($kind:ident, $name:ident, $rename:expr, $pre:expr) => {
+        ghost_fs_unit!($kind, $name, {
             let (_, ok, len) = move_harness(true, false, $rename, $pre);
             move_post(ok, len, $pre);
-        }
+        });
     };
 }
-move_unit!(c18_execute_move_rename, true, false);
-move_unit!(c18_execute_move_copy, false, false);
-move_unit!(c18_execute_move_rename_existing, true, true);
-move_unit!(c18_execute_move_copy_existing, false, true);
+move_unit!(wrappers, c18_execute_move_rename, true, false);
+move_unit!(wrappers, c18_execute_move_copy, false, false);
+move_unit!(wrappers, c18_execute_move_rename_existing, true, true);
+move_unit!(wrappers, c18_execute_move_copy_existing, false, true);
+move_unit!(std, c18_execute_move_rename_std, true, false);
+move_unit!(std, c18_execute_move_copy_std, false, false);
+move_unit!(std, c18_execute_move_rename_existing_std, true, true);
+move_unit!(std, c18_execute_move_copy_existing_std, false, true);
 
-#[kani::proof]
-#[kani::stub(alloc::fmt::format, stub_format)]
-#[kani::stub(crate::path::Path::display, stub_display)]
-#[kani::stub(std::fs::Metadata::len, crate::file::verif_file::stub_metadata_len)]
-#[kani::stub(FsCommand::maybe_lock, stub_maybe_lock)]
-#[kani::stub(FsCommand::temp_file, stub_temp_file)]
-#[kani::stub(FsCommand::check_can_rename, stub_check_can_rename)]
-#[kani::stub(FsCommand::mkdirs, stub_mkdirs)]
-#[kani::stub(FsCommand::unsafe_rename, stub_unsafe_rename)]
-#[kani::stub(FsCommand::unsafe_copy, stub_unsafe_copy)]
-#[kani::stub(FsCommand::remove, stub_remove)]
-#[kani::unwind(12)]
-fn c20_lock_first_move() {
+ghost_fs_unit!(wrappers, c20_lock_first_move, {
     let (should_lock, ok, _) = move_harness(false, true, kani::any(), false);
     lock_post(should_lock, ok);
-}
+});
